@@ -132,13 +132,16 @@ pub fn expr_to_source(spanned_expr: &SpannedExpr) -> String {
             return_expr,
         } => {
             let mut result = "do {".to_string();
-            for stmt in statements {
+            for (index, stmt) in statements.iter().enumerate() {
                 // Leading comments
                 for comment in &stmt.leading {
                     result.push_str(&format!("\n  {}", comment));
                 }
                 // Expression
-                result.push_str(&format!("\n  {}", expr_to_source(&stmt.node)));
+                result.push_str(&format!(
+                    "\n  {}",
+                    do_statement_line(index, expr_to_source(&stmt.node))
+                ));
                 // Trailing comment
                 if let Some(trailing) = &stmt.trailing {
                     result.push_str(&format!("  {}", trailing));
@@ -377,6 +380,12 @@ pub fn lambda_body_needs_parens(body: &SpannedExpr) -> bool {
     }
 }
 
+/// A do-block statement written on a line of its own: a line that begins with `-` would continue the
+/// previous statement as a subtraction, so such a statement (not the first) keeps parentheses
+pub fn do_statement_line(index: usize, source: String) -> String {
+    wrap_if(index > 0 && source.starts_with('-'), source)
+}
+
 fn wrap_if(needs_parens: bool, source: String) -> String {
     if needs_parens {
         format!("({})", source)
@@ -475,7 +484,7 @@ pub fn expr_to_source_with_scope(
             // the next statement on, so it must not be inlined there
             let mut scope = scope.clone();
             let mut result = "do {".to_string();
-            for stmt in statements {
+            for (index, stmt) in statements.iter().enumerate() {
                 // Leading comments
                 for comment in &stmt.leading {
                     result.push_str(&format!("\n  {}", comment));
@@ -483,7 +492,7 @@ pub fn expr_to_source_with_scope(
                 // Expression
                 result.push_str(&format!(
                     "\n  {}",
-                    expr_to_source_with_scope(&stmt.node, &scope)
+                    do_statement_line(index, expr_to_source_with_scope(&stmt.node, &scope))
                 ));
                 if let Expr::Assignment { ident, .. } = &stmt.node.node {
                     scope.shift_remove(ident);
